@@ -529,6 +529,7 @@ import sys, json
 pre = list(sys.modules)
 cfg = json.loads(sys.stdin.read())
 target, cands, names = cfg["target"], cfg["cands"], cfg["names"]
+full = set(cfg.get("full") or [])
 res = {"target": target, "ok": True, "exc": None}
 if target is not None:
     import importlib
@@ -548,7 +549,7 @@ for m in (cands if target is None else [target]):
     if mod is None:
         continue
     d = {}
-    for n in names:
+    for n in (sorted(set(names) | set(dir(mod))) if m in full else names):
         try:
             v = getattr(mod, n)
         except BaseException:
@@ -567,8 +568,9 @@ sys.stdout.write(json.dumps(res))
 '''
 
 
-def probe(target, cands, names):
-    p = subprocess.run([PY, "-I", "-c", PROBE], input=json.dumps({"target": target, "cands": cands, "names": names}),
+def probe(target, cands, names, full=()):
+    p = subprocess.run([PY, "-I", "-c", PROBE],
+                       input=json.dumps({"target": target, "cands": cands, "names": names, "full": sorted(full)}),
                        capture_output=True, text=True, cwd="/", timeout=300)
     if p.returncode != 0 or not p.stdout:
         raise RuntimeError("probe of %r failed: %s" % (target, p.stderr[-800:]))
@@ -667,13 +669,14 @@ def build(repo):
         ns.update(n.rpartition(".")[2] for n in nodes)
         return sorted(ns)
     names = ext_names()
+    star_ext = {e[2] for evs in bodies.values() for e in walk_events(evs) if e[0] == "star" and not is_ioflo(e[2])}
     # measurements: the fresh interpreter, then every non-ioflo node on its own (in a clean process each)
     results = {}
-    base = probe(None, ext, names)
+    base = probe(None, ext, names, star_ext)
     for rnd in range(4):
         todo = [x for x in ext if x not in results]
         with concurrent.futures.ThreadPoolExecutor(16) as pool:
-            for x, r in zip(todo, pool.map(lambda t: probe(t, ext, names), todo)):
+            for x, r in zip(todo, pool.map(lambda t: probe(t, ext, names, star_ext), todo)):
                 results[x] = r
         # sub-modules that show up bound on a measured module become nodes too (and get measured)
         more = set()
@@ -691,7 +694,7 @@ def build(repo):
             idents.add(n.rpartition(".")[2])
         ext = sorted(n for n in nodes if not is_ioflo(n))
         names = ext_names()
-        base = probe(None, ext, names)
+        base = probe(None, ext, names, star_ext)
     preloaded = [m for m in ext if m in set(base["pre"])]
     extset = set(ext)
 
@@ -715,11 +718,14 @@ def build(repo):
             if v[0] == "child":
                 continue                     # bound by the import machinery when the child is loaded
             evs.append(["def", n] if v[0] == "obj" or v[1] not in nodes else ["defmod", n, v[1]])
-        if a["all"] is not None:
-            evs = [e for e in evs if e != ["def", "__all__"]]
-            evs.append(["defall", [n for n in a["all"]]])
-            for n in a["all"]:
-                idents.add(n)
+        if x in star_ext:
+            for e in evs:
+                if e[0] in ("def", "defmod"):
+                    idents.add(e[1])
+            if a["all"] is not None:
+                evs = [e for e in evs if e != ["def", "__all__"]]
+                evs.append(["defall", [n for n in a["all"]]])
+                idents.update(a["all"])
         return evs, a
 
     graph_nodes = {}
@@ -755,12 +761,50 @@ def build(repo):
 
 # ----------------------------------------------------------------------------------------------- Lean output
 
+def classify_names(g):
+    """identifier order: names that may be bound to a module (MN) first, then the other names some event looks
+    up (relevant), then the rest; inside each class sorted"""
+    nodes = g["nodes"]
+    mn, rel = set(), {"__path__", "__all__"}
+    for n, nd in nodes.items():
+        if nd["exists"]:
+            mn.add(n.rpartition(".")[2])
+        for e in walk_events(nd["body"]):
+            k = e[0]
+            if k == "imp" and e[3]:
+                mn.add(e[3])
+            elif k == "defmod":
+                mn.add(e[1])
+            elif k == "from":
+                rel.update(n_ for n_, _ in e[3])
+            elif k == "use":
+                rel.add(e[2]); rel.update(e[3])
+            elif k == "del":
+                rel.add(e[2])
+            elif k == "defall":
+                rel.update(e[1])
+    changed = True
+    while changed:          # `from t import n as b` hands a module value on to b
+        changed = False
+        for n, nd in nodes.items():
+            for e in walk_events(nd["body"]):
+                if e[0] == "from":
+                    for a, b in e[3]:
+                        if b and b not in mn and (a in mn or nodes[e[2] + "." + a]["exists"]):
+                            mn.add(b); changed = True
+    rel |= mn
+    return mn, rel
+
+
 def lean_text(g):
-    idents = sorted(g["idents"], key=lambda s: (not s.startswith("_"), s))
-    npriv = sum(1 for s in idents if s.startswith("_"))
+    mn, rel = classify_names(g)
+    allid = set(g["idents"]) | mn | rel
+    idents = sorted(mn) + sorted(rel - mn) + sorted(allid - rel)
+    n_mn, n_rel = len(mn), len(rel)
     iid = {s: i for i, s in enumerate(idents)}
-    names = sorted(g["nodes"])
+    names = sorted(g["nodes"], key=lambda n: (not g["nodes"][n]["exists"], n))
     nid = {s: i for i, s in enumerate(names)}
+    CH = 20
 
     def L(xs):
         return "[" + ", ".join(xs) + "]"
@@ -772,18 +816,26 @@ def lean_text(g):
         # a measured ModuleNotFoundError naming some module outside the graph: an id no node has
         return "." + c if c != "moduleNotFound" else "(.moduleNotFound %d)" % len(names)
 
+    def chain(t):
+        out = []
+        while t is not None:
+            out.append(str(nid[t]))
+            t = g["nodes"][t]["parent"]
+        return L(out)
+
     def ev(e):
         k = e[0]
         if k == "imp":
-            return ".imp %d %d %s %s" % (e[1], nid[e[2]], opt(None if e[3] is None else iid[e[3]]), "true" if e[4] else "false")
+            return ".imp %d %s %s %s" % (e[1], chain(e[2]), opt(None if e[3] is None else iid[e[3]]), "true" if e[4] else "false")
         if k == "from":
-            return ".from_ %d %d %s" % (e[1], nid[e[2]], L("(%d, %s, %d)" % (iid[n], opt(None if a is None else iid[a]), nid[e[2] + "." + n]) for n, a in e[3]))
+            return ".from_ %d %s %s" % (e[1], chain(e[2]), L("(%d, %s, %d)" % (iid[n], opt(None if a is None else iid[a]), nid[e[2] + "." + n]) for n, a in e[3]))
         if k == "star":
-            return ".star %d %d" % (e[1], nid[e[2]])
+            return ".star %d %s" % (e[1], chain(e[2]))
         if k == "use":
             return ".use %d %d %s" % (e[1], iid[e[2]], L(str(iid[a]) for a in e[3]))
-        if k == "def":
-            return ".def_ %d" % iid[e[1]]
+        if k == "defs":
+            ids = sorted({iid[n] for n in e[1]})
+            return ".defs %s %s" % (L(str(i) for i in ids if i < n_rel), L(str(i) for i in ids if i >= n_rel))
         if k == "defmod":
             return ".defMod %d %d" % (iid[e[1]], nid[e[2]])
         if k == "defall":
@@ -801,44 +853,65 @@ def lean_text(g):
             return ".try_ %s %s %s %s" % (evs(e[1]), hs, evs(e[3]), evs(e[4]))
         raise ValueError(e)
 
+    def merge(es):
+        """consecutive plain bindings become one `defs` event"""
+        out = []
+        for e in es:
+            if e[0] == "def":
+                if out and out[-1][0] == "defs":
+                    out[-1][1].append(e[1])
+                else:
+                    out.append(["defs", [e[1]]])
+            else:
+                out.append(e)
+        return out
+
     def evs(es):
-        return L(ev(e) for e in es)
+        return L(ev(e) for e in merge(es))
+
+    def mask(pred, lo, hi):
+        return sum(1 << (i - lo) for i in range(lo, hi) if pred(idents[i]))
 
     out = []
     out.append("import IofloModel.Model.Imports")
     out.append("/-! GENERATED by harness/translate/imports.py from the ioflo source tree under test — do not edit.")
-    out.append("Module ids index `nodes`; identifier ids index `identNames` (the first `nPrivate` start with an underscore). -/")
+    out.append("Module ids index the node table (`modNames`), identifier ids index `identNames`: the first `nMN` may be")
+    out.append("bound to modules, the first `nRel` are looked up by some event. -/")
     out.append("namespace Ioflo.Imports.Gen")
     out.append("open Ioflo.Imports")
     out.append("set_option maxRecDepth 100000")
     out.append("")
     out.append("/-- names bound by the loader before the body of a source module / regular package / namespace package runs -/")
-    out.append("def srcInit : List Name := %s" % L(str(iid[d]) for d in SRC_DUNDERS))
-    out.append("def pkgInit : List Name := %s" % L(str(iid[d]) for d in SRC_DUNDERS + ["__path__"]))
-    out.append("def nsInit : List Name := %s" % L(str(iid[d]) for d in NS_DUNDERS))
+    for nm, ds in (("src", SRC_DUNDERS), ("pkg", SRC_DUNDERS + ["__path__"]), ("ns", NS_DUNDERS)):
+        ids = sorted(iid[d] for d in ds)
+        out.append("def %sInit : List Name := %s" % (nm, L(str(i) for i in ids if i < n_rel)))
+        out.append("def %sInitOther : List Name := %s" % (nm, L(str(i) for i in ids if i >= n_rel)))
     for n in names:
         nd = g["nodes"][n]
         i = nid[n]
         out.append("/-- %s -/" % n)
-        body = nd["body"]
+        body = merge(nd["body"])
         chunks = [body[j:j + 40] for j in range(0, len(body), 40)] or [[]]
         for c, ch in enumerate(chunks):
-            out.append("def b%d_%d : List Ev := %s" % (i, c, evs(ch)))
-        anc, p = [], nd["parent"]
-        while p is not None:
-            anc.append(nid[p])
-            p = g["nodes"][p]["parent"]
-        init = "[]" if not nd["ioflo"] or not nd["exists"] else "nsInit" if nd["ns"] else "pkgInit" if nd["pkg"] else "srcInit"
-        out.append("def n%d : Node := { parent := %s, anc := %s, last := %d, exists_ := %s, isPkg := %s, ioflo := %s, init := %s, body := %s }" % (
-            i, opt(None if nd["parent"] is None else nid[nd["parent"]]), L(str(a) for a in anc),
+            out.append("def b%d_%d : List Ev := %s" % (i, c, L(ev(e) for e in ch)))
+        init = None if not nd["ioflo"] or not nd["exists"] else "ns" if nd["ns"] else "pkg" if nd["pkg"] else "src"
+        init = "init := [], initOther := []" if init is None else "init := %sInit, initOther := %sInitOther" % (init, init)
+        out.append("def n%d : Node := { parent := %s, last := %d, exists_ := %s, ioflo := %s, %s, body := %s }" % (
+            i, opt(None if nd["parent"] is None else nid[nd["parent"]]),
             iid[n.rpartition(".")[2]], "true" if nd["exists"] else "false",
-            "true" if nd["pkg"] else "false", "true" if nd["ioflo"] else "false", init,
+            "true" if nd["ioflo"] else "false", init,
             " ++ ".join("b%d_%d" % (i, c) for c in range(len(chunks)))))
     out.append("")
-    out.append("def nodes : List Node := %s" % L("n%d" % nid[n] for n in names))
-    out.append("def graph : Graph := { nodes := nodes, preloaded := %s, builtins := %s, nPrivate := %d, "
-               "pathName := %d, allName := %d, domain := %s }" % (
-                   L(str(nid[m]) for m in g["preloaded"]), L(str(iid[b]) for b in g["builtins"]), npriv,
+    nchunks = (len(names) + CH - 1) // CH
+    for c in range(nchunks):
+        out.append("def c%d : List Node := %s" % (c, L("n%d" % i for i in range(c * CH, min(len(names), (c + 1) * CH)))))
+    out.append("def nodes : List (List Node) := %s" % L("c%d" % c for c in range(nchunks)))
+    bset = set(g["builtins"])
+    out.append("def graph : Graph := { nodes := nodes, chunk := %d, nNodes := %d, preloaded := %s, builtins := %d, "
+               "nMN := %d, nRel := %d, nHi := %d, publicLo := %d, publicHi := %d, pathName := %d, allName := %d, domain := %s }" % (
+                   CH, len(names), L(str(nid[m]) for m in sorted(g["preloaded"], key=lambda m: nid[m])),
+                   mask(lambda s_: s_ in bset, 0, len(idents)), n_mn, n_rel, len(idents) - n_rel,
+                   mask(lambda s_: not s_.startswith("_"), 0, n_rel), mask(lambda s_: not s_.startswith("_"), n_rel, len(idents)),
                    iid["__path__"], iid["__all__"], L(str(nid[m]) for m in g["domain"])))
     out.append("")
     out.append("def modNames : Array String := #%s" % L(json.dumps(n) for n in names))
